@@ -355,7 +355,7 @@ pub fn run(ctx: &Ctx) -> Outcome {
         Tier::Quick => vec![Spec::PSpace { max_fields: 3, recursion: false }],
         Tier::Thorough => {
             let mut v = vec![Spec::PSpace { max_fields: 3, recursion: true }, crate::gramsweep::g(2, 2, 3, 2)];
-            v.extend(crate::gramsweep::all_seed_nbh(1, 1, 2000));
+            v.extend(crate::gramsweep::all_seed_nbh(1, 1, 600));
             v
         }
     };
